@@ -16,6 +16,8 @@ package main
 //	         offsetDB (what persistence_mode=sync does) while a checker keeps parsing the current file
 //	which=5  table sequence            case = (table ...)               obs = ((#filebytes loadres) ...)
 //	         the tables are saved one after the other by ONE offsetDB (its 64 KiB buffer and snapshot slice are reused)
+//	which=6  load after a crash        case = (target old new cp override names)  obs = (oldb #newb dir1 dir2 load)   see crashload.go
+//	which=7  go/ast of the loaders     case = (#file #recv #load #save)  obs = ((#dest ...) ((#fn #path) ...))   see loadast.go
 //
 // which=2 runs a helper process (this binary, "c07helper") that performs ONE real save under
 // `strace -f -e inject=...`: the k-th call of one kind fails with EIO/ENOSPC or the process is killed on
@@ -692,6 +694,10 @@ func exec07(which int, cs hx.Sx) hx.Sx {
 	switch which {
 	case 5:
 		return execSequence(cs)
+	case 6:
+		return execCrashLoad(cs)
+	case 7:
+		return execLoadAST(cs)
 	case 0:
 		return execRoundtrip(cs)
 	case 1:
@@ -1065,6 +1071,8 @@ func gen07(c *hmain.Ctx) {
 		c.W.Count(fmt.Sprintf("concurrent-saves: K=%d", k))
 		c.W.Count(fmt.Sprintf("concurrent-saves: distinct file states seen by the checker in one run >= %d", len(hx.Items(obs))/25*25))
 	}
+	genCrashLoad(c)
+	genLoadAST(c)
 	if os.Getenv("C07_SKIP_THRESHOLDS") == "" { // development aid: time the streams above alone
 		genThresholds(c)
 	}
